@@ -35,6 +35,9 @@ pub struct Report {
     pub maxima: BTreeMap<String, u64>,
     /// coverage buckets hit (set union; evidence lists the per-bucket counts)
     pub buckets: Vec<String>,
+    /// an engine whose one "scenario" is many rounds / seeds reports the signatures of its
+    /// distinct non-trivial sub-cases here (counted in addition to `sig`)
+    pub more_sigs: Vec<u64>,
 }
 impl Report {
     pub fn count(&mut self, k: &str, n: u64) {
@@ -159,7 +162,12 @@ impl Agg {
         }
         if r.nontrivial {
             self.nontrivial += 1;
-            self.distinct.insert(r.sig);
+            if r.more_sigs.is_empty() {
+                self.distinct.insert(r.sig);
+            }
+        }
+        for s in &r.more_sigs {
+            self.distinct.insert(*s);
         }
         for (k, v) in &r.counters {
             *self.counters.entry(k.clone()).or_insert(0) += v;
